@@ -90,6 +90,19 @@ def make_trace(directed, removal, calls, labeling="int", forks=None, fork_at=Non
     return lines
 
 
+def extend_trace(lines, g, L, calls, known, grid, rng, observe_every=True):
+    """apply further calls to the object of an existing trace (one observed line per call)"""
+    for c in calls:
+        form = rng.choice(FORMS[c["op"]])
+        res = core.apply_call(g, L, c, form)
+        line = dict(c)
+        line.update(fork=False, res=res, form=form)
+        if observe_every:
+            line["obs"] = core.observe(g, L, known, grid)
+        lines.append(line)
+    return lines
+
+
 # --------------------------------------------------------------------------- random call generators
 def rand_add(rng, nnodes, tmax, loops=True, p_interval=0.45, p_missing=0.03, p_degenerate=0.05):
     u = rng.randint(1, nnodes)
